@@ -107,6 +107,40 @@ def intact(ctx, report, rule, facts, config):
                   site=b.loc(bad[0][0]) if bad else b.loc(), config=config)
 
 
+def intact_flow(ctx, report, rule, facts, config):
+    """The same, followed through helpers: evaluated from each entry point of the synchronous dispatch with in-crate helpers
+    looked into, no operation that reshapes or takes a collection is applied to (a view of) the stage / group /
+    thread-local lists - also when the list reaches the operation through a helper's parameter."""
+    from . import semq as Q
+    from .worldrules import _deep_all
+    roots = [F.inh(facts, A.DISP, n) for n in ("dispatch", "dispatch_seq", "dispatch_thread_local")]
+    roots += [F.inh(facts, A.SD, n) for n in ("dispatch", "dispatch_seq")]
+    roots += [F.inh(facts, A.STAGE, "execute_seq"), F.timpl(facts, A.T_SYSTEM, A.BCS, "run")]
+    if ctx.parallel(config):
+        roots += [F.inh(facts, A.DISP, "dispatch_par"), F.inh(facts, A.SD, "dispatch_par"), F.inh(facts, A.STAGE, "execute")]
+    fields = set(DISPATCH_FIELDS)
+    world_api = sorted(x.key for x in facts.bodies.values() if not x.is_closure and x.self_head == A.WORLD)
+    n = 0
+    for b in roots:
+        report.touched(b, config)
+        ev, ends = Q.sem(ctx, facts, b, opaque=world_api)
+        bad = []
+        for e in ends:
+            for x in _deep_all(e.path.events):
+                if x[0] != "call" or x[2].local or not x[3]:
+                    continue
+                n += 1
+                if x[2].name in S.SHAPE_MUTATORS or x[2].name in ("take", "replace", "swap", "drain", "split_off"):
+                    for a in x[3][:2]:
+                        f_, i_, base = Q.table_access(ev, a)
+                        cf = Q.crate_fields(f_)
+                        if cf and cf[-1] in fields and Q.strip(ev, a)[0] in ("field", "index"):
+                            bad.append("%s on %s.%s" % (x[2].name, cf[-1][0].rsplit("::", 1)[1], cf[-1][1]))
+        report.ob(rule, "flow/%s" % b.qname, not bad, "dispatcher structure only borrowed, helpers included" if not bad else
+                  "the dispatcher is changed during dispatch (%s): after an unwinding panic the next dispatch would not see every system" % sorted(set(bad))[0], site=b.loc(), config=config)
+    report.floor(rule, "calls looked at from the dispatch entry points", n, 10, config=config)
+
+
 def lock(ctx, report, rule, facts, config):
     """Lock guards of the pool slot held across user code are read guards."""
     if not ctx.parallel(config):
@@ -345,8 +379,8 @@ def async_gate(ctx, report, rule, facts, config):
                             hit = (bi, "reaches into the state")
         if hit:
             n += 1
-            root_key = b.root_key or b.key
-            ok = b.key in data_bodies or root_key in data_bodies
+            # a method of Data, or a private helper only they reach
+            ok = S.owned_by(facts, b, data_bodies)
             report.ob(rule, "state-inspected/%s" % b.qname, ok, "%s %s" % (b.qname, hit[1]), site=b.loc(hit[0]), config=config)
     report.floor(rule, "bodies inspecting the state", n, 3, config=config)
     # (b) every accessor takes the state back (blocking) on every path before using it
@@ -382,29 +416,52 @@ def async_gate(ctx, report, rule, facts, config):
             "AsyncDispatcher::%s can proceed without taking the state back from the background job: %s" % (name, "; ".join(sorted(set(pr)))), site=b.loc(), config=config)
     # (c) dispatch goes through sender, which takes the state back before replacing it
     d = facts.one(A.AD + "::dispatch")
-    bt = prog.bt(d)
     snd = facts.one(A.AD_DATA + "::sender")
-    cs = [bb for bb, t in d.normal_calls() if Callee(t["func"]).key == snd.key]
-    cnt = bt.cfg.count(lambda x: x in cs) if cs else (0, 0)
-    report.ob(rule, "dispatch/sender-once", cnt == (1, 1), "self.data.sender() calls per path: %s" % (cnt,), site=d.loc(), config=config)
-    bts = prog.bt(snd)
-    ic = [bb for bb, t in snd.normal_calls() if Callee(t["func"]).key == inner.key]
-    rp = [bb for bb, t in snd.normal_calls() if Callee(t["func"]).name in ("replace", "take", "swap") and "mem::" in Callee(t["func"]).path]
-    ok = len(ic) >= 1 and len(rp) == 1 and bts.cfg.dominates(ic[0], rp[0])
-    report.ob(rule, "sender/inner-before-replace", ok, "a second dispatch first waits for the previous one (inner() dominates mem::replace)" if ok else
-              "sender() can replace the state while a previous dispatch is still in flight", site=snd.loc(), config=config)
-    if ok:
-        a = bts.call_args(rp[0])
-        okv = a[1][0] == "agg" and a[1][2] == A.AD_DATA + "::Rx" and a[0] == ("param", 1)
-        report.ob(rule, "sender/installs-Rx", okv, "state becomes Rx(receiver of the new channel)", site=snd.loc(), config=config)
-    # Data::Rx constructed only in sender
+    keep = [x.key for x in facts.bodies.values() if not x.is_closure and x.self_head == A.STAGE]
+    ev, ends = Q.sem(ctx, facts, d, opaque=[snd.key] + keep)
+    counts = []
+    for e in Q.returns(ends):
+        cs = Q.calls_in(e.path.events, lambda c: c.key == snd.key, deep=True)
+        counts.append(len(cs) if not [L for L in Q.all_loops([e]) if Q.loop_contains_call(L, lambda c: c.key == snd.key)] and all(Q.strip(ev, x[3][0]) == data_field for x in cs) else -1)
+    report.ob(rule, "dispatch/sender-once", bool(counts) and all(c == 1 for c in counts), "self.data.sender() calls per way through: %s" % counts, site=d.loc(), config=config)
+    ev, ends = Q.sem(ctx, facts, snd, opaque=[inner.key])
+    pr = []
+    n_ret = 0
+    for e in ends:
+        if e.kind != "return":
+            continue
+        n_ret += 1
+        took = False
+        installed = []
+        for x in e.path.events:
+            if x[0] == "call" and x[2].key == inner.key and x[3] and Q.strip(ev, x[3][0]) == ("param", 1):
+                took = True
+            new_state = None
+            if x[0] == "call" and not x[2].local and x[2].name in ("replace", "swap", "take") and "mem::" in (x[2].path or "") and x[3] and Q.strip(ev, x[3][0]) == ("param", 1):
+                new_state = x[3][1] if len(x[3]) > 1 else ("default",)
+            elif x[0] == "store" and x[2][0] != "cell" and Q.strip(ev, x[2]) == ("param", 1):
+                new_state = x[3]
+            elif x[0] == "loop":
+                if Q.loop_contains_call(x[1], lambda c: c.name in ("replace", "swap", "take") and "mem::" in (c.path or "")):
+                    pr.append("the state is replaced inside a loop")
+            if new_state is not None:
+                if not took:
+                    pr.append("sender() can replace the state while a previous dispatch is still in flight")
+                installed.append(new_state)
+        if len(installed) != 1:
+            pr.append("the state is replaced %d time(s) on a way through sender()" % len(installed))
+        elif not (installed[0][0] == "agg" and installed[0][2] == A.AD_DATA + "::Rx"):
+            pr.append("the installed state is not Rx(receiver of the new channel)")
+    report.ob(rule, "sender/inner-before-replace", not pr and n_ret >= 1, "a second dispatch first waits for the previous one (inner() before the state becomes Rx(receiver of the new channel))" if not pr else
+              "; ".join(sorted(set(pr))), site=snd.loc(), config=config)
+    # Data::Rx constructed only in sender (or a private helper only sender reaches)
     n = 0
     for b in sorted(facts.bodies.values(), key=lambda b: b.key):
         for bi, blk in enumerate(b.blocks):
             for st in blk["stmts"]:
                 if st["k"] == "assign" and st["rv"]["k"] == "agg" and st["rv"].get("adt") == A.AD_DATA and st["rv"]["variant"] == "Rx":
                     n += 1
-                    report.ob(rule, "Rx-built/%s" % b.qname, b.key == snd.key, "Data::Rx is constructed in %s" % b.qname, site=b.loc(bi), config=config)
+                    report.ob(rule, "Rx-built/%s" % b.qname, S.owned_by(facts, b, set([snd.key])), "Data::Rx is constructed in %s" % b.qname, site=b.loc(bi), config=config)
     report.floor(rule, "constructions of Data::Rx", n, 1, config=config)
 
 
